@@ -1,6 +1,8 @@
 CONSTANTS
+  TransitiveSkip = TRUE
+  FaultMaxN = 4
   MaxN = 4
-  Family = "max"
+  Family = "maxred"
 SPECIFICATION Spec
 INVARIANTS TypeOK Theorem ExactlyOnceStarted OrderIndependent SettleIsReachable
 PROPERTIES Terminates
